@@ -288,3 +288,28 @@ CLAIMS["C18"] = {
 }
 
 NOT_APPLICABLE = {}
+
+# what the hunt / audit rounds (DESIGN §7.7, §7.8) added to each claim
+ADDENDA = {
+    "C01": " Added in the hunt/audit rounds: NOT-REQUIRED semantics of the readOnly removal (R8) and width evidence for the pattern with merged length bounds (R2b).",
+    "C04": " Added: the status expansion is total over the legal keys of a responses object (R7); NOT-REQUIRED semantics of the writeOnly removal (R8).",
+    "C05": " Added: CHECK-THEN-ACT exit condition of both event consumer loops (O10).",
+    "C06": " Added: OWNERSHIP of the in-place sanitizer (R7), WORKLIST pushes elements (R8), merge of call-time params builds a new mapping (R9), JSON spelling inside the style serializers (R10), truthiness rewrites in the style serializers (R6), partial cookie acquisition (R5).",
+    "C07": " Added: the statistic shows the filters the same (resolved) definition as get_all_operations (R4b) and isolates malformed entries per operation (R4c).",
+    "C08": " Added: error-class coverage of the per-operation handler (R4); no yield while a resolution scope is pushed on the shared resolver (R7, known finding).",
+    "C09": " Added: curl's own argument syntax - empty header value, payload starting with @ (R5).",
+    "C10": " Added: RFC 6901 array index test before int() (R6); values of a responses object are used as mappings only after an isinstance test (R7).",
+    "C11": " Added: CHECK-THEN-ACT drain (R7), consumer arm exhaustive over emitted statuses (R8), probe network call total (R9), every caught KeyboardInterrupt is reported (R10); the reference grammar allows a repeated Interrupted notice.",
+    "C12": " Added: the stop flag is set before the join also when the consumer abandons the stream (R6 b); probes are rate limited (R5, suppression removed).",
+    "C13": " Added: set typing through annotations and draw-order sensitivity (R3).",
+    "C14": " Added: LOST-UPDATE of keyed containers (R7), OWNERSHIP of the in-place sanitizer (R8), DEAD-PARAMETER / dropped caller option (R9).",
+    "C15": " Added: schema location and URLs in error texts pass sanitize_url (R5 clauses); headers derived by requests' prepare() are sanitized too (R2 clause).",
+    "C16": " Added: TYPESTATE of the line protocol of the hand-assembled cassette (R1c), KEY-DOMAIN / ALL-VALUES of recorded headers in the HAR writer (R8), failures attached once and status-independently (R2b), JUnit finalised in shutdown (R7 clause), Response.text totality in the failure formatter and the CLI summary (R6 clauses).",
+    "C17": " Added: KEYED-MERGE of example containers and explicit containers (R7).",
+    "C18": " Added: seen-set discipline of the history walk (R4), no has-a-parent precondition at the accusation (R3 clause).",
+    "C19": " Added: typestate clauses of the pending-filter cell c4-c7 (rejection paths, by-name continuation, cell fresh at every return, rejected filter call), WHO-MUST-CALL data hooks on explicit cases (R6, known finding).",
+    "C20": " Added: MEMO-KEY counts instance state when the cache is shared between instances (R1b).",
+}
+for _pid, _txt in ADDENDA.items():
+    if _pid in CLAIMS and _txt not in CLAIMS[_pid]["text"]:
+        CLAIMS[_pid]["text"] += _txt
